@@ -28,6 +28,7 @@ class Shadow:
     def __init__(self, rng: random.Random):
         self.rng = rng
         self.cancel_bias = 0.0
+        self.deep_groups = 0.1
         # targeted scenarios (act_special): probability per act() step and relative weights; a property check raises what it is about
         self.special = 0.08
         self.weights = {'late-unschedule': 1.0, 'orphan': 1.0, 'unschedule-orphan': 2.0, 'late-resources': 1.5, 'jp-cancel-path': 1.0}
@@ -87,7 +88,10 @@ class Shadow:
         for k in range(1, u['n_groups'] + 1):
             gid = u['start_group'] + k - 1
             # parent: an existing group (absolute) or an earlier group of this update (relative), depth <= 4
-            cands = [g for g, info in B['groups'].items() if info["depth"] < 3]
+            # MAX_JOB_GROUPS_DEPTH = 2 (a group of depth 3 is answered 400 and takes the rest of the bunch with it): parents of depth < 2,
+            # now and then (`deep_groups`) one level too deep to exercise that rejection
+            lim = 3 if self.rng.random() < self.deep_groups else 2
+            cands = [g for g, info in B['groups'].items() if info["depth"] < lim]
             parent = rng.choice(cands) if cands and rng.random() < 0.8 else 0
             if parent >= u['start_group'] and rng.random() < 0.7:
                 specs.append(f'{k};N;{parent - u["start_group"] + 1}')
@@ -607,6 +611,7 @@ def submission(rng: random.Random) -> Dict[str, Any]:
     """C39: a client submits and commits 1-2 updates (pool 'standard' jobs that fit the instances, nested groups, DAG parents, some
     always_run); then a script for the actors of harness/batchdb/actors.py"""
     s = Shadow(rng)
+    s.deep_groups = 0.0          # a well-behaved client: every request of the submission is accepted
     b = s.create_batch(user=1)
     for _ in range(rng.choice([1, 2])):
         s.new_instance(True)
